@@ -66,6 +66,8 @@ func (r *Runner) fillExpandConfig(ctx context.Context) {
 			}
 			r2 := r.subshell(false)
 			r2.stdout = w
+			// Like Bash outside of POSIX mode, command substitutions do not inherit errexit.
+			r2.opts[optErrExit] = false
 			r2.stmts(ctx, cs.Stmts)
 			r2.exit.exiting = false   // subshells don't exit the parent shell
 			r2.exit.returning = false // nor do they return from its functions
